@@ -188,6 +188,41 @@ def tr_sel(fn, kept, chosen):
             "  fold_left (fun st p => (remove1 p (fst st), snd st ++ [p])) sel (pins, []).\n")
 
 
+def tr_join_pins(join_fn, add_pin_fn):
+    """the pin list of the joined structure: `add_pins = self.pin_list + st.pin_list`, every interface pin removed once
+    (list.remove), the rest handed to add_pin one by one (append, index = running count, refusal of a repeated pin)"""
+    t = [ast.unparse(x) for x in strip_doc(add_pin_fn.body)]
+    want = ["if pin in self.pin_list:\n    raise Exception('Pin already present, nothing is done')\nelse:\n"
+            "    self.pin_list.append(pin)\n    self.pin_dic[pin] = self.N\n    self.N += 1"]
+    if t != want:
+        raise Unsupported("Structure.add_pin changed: " + " ; ".join(t)[:300])
+    texts = [ast.unparse(x) for x in strip_doc(join_fn.body)]
+    want = ["add_pins = self.pin_list + st.pin_list", "for pin in loc_out + tar_in:\n    add_pins.remove(pin)",
+            "for pin in add_pins:\n    new_st.add_pin(pin)"]
+    try:
+        k = texts.index(want[0])
+    except ValueError:
+        raise Unsupported("Structure.join: `add_pins = self.pin_list + st.pin_list` not found")
+    if texts[k:k + 3] != want:
+        raise Unsupported("Structure.join: the construction of the new pin list changed: " + " ; ".join(texts[k:k + 3])[:300])
+    # add_pins / new_st.pin_list / pin_dic / N must not be touched elsewhere in join
+    for i, st in enumerate(strip_doc(join_fn.body)):
+        if k <= i < k + 3:
+            continue
+        for n in ast.walk(st):
+            if isinstance(n, (ast.Name, ast.Attribute)) and ast.unparse(n) in ("add_pins", "new_st.pin_list", "new_st.pin_dic", "new_st.N"):
+                raise U(st, "Structure.join touches the new pin list outside the three statements that build it")
+    return ("Definition join_pins_src (pinsA pinsB loc_out tar_in : list spin) : list spin * list (spin * nat) * nat * bool :=\n"
+            "  let add_pins := pinsA ++ pinsB in\n"
+            "  let add_pins := fold_left (fun l pin => remove1 pin l) (loc_out ++ tar_in) add_pins in\n"
+            "  fold_left (fun (st : list spin * list (spin * nat) * nat * bool) pin =>\n"
+            "               let '(pin_list, pin_dic, N, err) := st in\n"
+            "               if err then st else\n"
+            "               if mem pin pin_list then (pin_list, pin_dic, N, true)\n"
+            "               else (pin_list ++ [pin], pin_dic ++ [(pin, N)], (N + 1)%nat, false))\n"
+            "            add_pins ([], [], 0%nat, false).\n")
+
+
 def translate(repo: str) -> str:
     p = os.path.join(repo, "lekkersim", "structure.py")
     with open(p) as fh:
@@ -207,6 +242,7 @@ def translate(repo: str) -> str:
     out.append(tr_back(find_fn(tree, "Structure", "get_S_back")))
     out.append(tr_sel(find_fn(tree, "Structure", "sel_output"), "in_list", "out_list"))
     out.append(tr_sel(find_fn(tree, "Structure", "sel_input"), "out_list", "in_list"))
+    out.append(tr_join_pins(find_fn(tree, "Structure", "join"), find_fn(tree, "Structure", "add_pin")))
     out.append("End JoinSrc.")
     return "\n".join(out) + "\n"
 
